@@ -195,7 +195,7 @@ func (t *tpt) Listen(laddr ma.Multiaddr) (transport.Listener, error) {
 
 // ---------------------------------------------------------------------------
 
-// dcutrStream is what the remote side sees when the local node opens a DCUtR stream.
+// dcutrOpen records a DCUtR stream (or CONNECT message) the local node sent: over which conn, when.
 type dcutrOpen struct {
 	c  *conn
 	at time.Time
@@ -286,7 +286,6 @@ func (w *world) answer(c *conn, remote *memnet.Conn) {
 	remote.Reset()
 }
 
-var seqAddr atomic.Int64
 
 // newInbound creates (but does not deliver) an inbound connection of the given class.
 func (w *world) newInbound(p peer.ID, cls class, k int) *conn {
